@@ -40,6 +40,14 @@ type Ticker struct {
 
 func (t *Ticker) Stop() { t.stop() }
 
+func (t *Ticker) Reset(d Duration) {
+	if d <= 0 {
+		panic("non-positive interval for Ticker.Reset")
+	}
+	t.stop()
+	t.stop = vsched.AddTicker(d, t.C)
+}
+
 func NewTicker(d Duration) *Ticker {
 	if d <= 0 {
 		panic("non-positive interval for NewTicker")
@@ -52,9 +60,22 @@ func NewTicker(d Duration) *Ticker {
 type Timer struct {
 	C    *vsched.Chan[Time]
 	stop func() bool
+	f    func()
 }
 
 func (t *Timer) Stop() bool { return t.stop() }
+
+// Reset re-arms the timer (channel timers keep their channel, AfterFunc timers their function).
+func (t *Timer) Reset(d Duration) bool {
+	was := t.stop()
+	if t.f != nil {
+		t.stop = vsched.AfterFuncSpawn(d, t.f)
+	} else {
+		c := t.C
+		t.stop = vsched.AddOneShot(d, func() { vsched.TimerSend(c) })
+	}
+	return was
+}
 
 func NewTimer(d Duration) *Timer {
 	c := vsched.NewChan[Time](1)
@@ -66,7 +87,7 @@ func After(d Duration) *vsched.Chan[Time] { return NewTimer(d).C }
 
 func AfterFunc(d Duration, f func()) *Timer {
 	stop := vsched.AfterFuncSpawn(d, f)
-	return &Timer{stop: stop}
+	return &Timer{stop: stop, f: f}
 }
 
 func Sleep(d Duration) {
